@@ -541,7 +541,7 @@ class DimensionValue(Value):
     Covers DIMENSION, PERCENTAGE or NUMBER values.
     """
 
-    __reUnNumDim = re.compile(r'^([+-]?)(\d*\.\d+|\d+)(.*)$', re.I | re.U | re.X)
+    __reUnNumDim = re.compile(r'^([+-]?)(\d*\.\d+|\d+)(.*)$', re.I | re.U | re.X | re.S)
     _dimension = None
     _sign = None
 
